@@ -144,16 +144,21 @@ impl<T: Default + Clone> DimArray<T> {
             return Err(InterpreterError::BadSubscript);
         }
         let mut dimensions = Vec::with_capacity(max_indices.len());
-        let mut total_elements = 1;
+        let mut total_elements: usize = 1;
         for &max_index in max_indices {
             // DIM declarations in BASIC represent the maximum index along each axis,
             // not the size along each axis, so we have to increment the number by 1.
-            let dimension_size = max_index + 1;
-            total_elements *= dimension_size;
+            //
+            // Subscripts can be astronomically large, so none of this arithmetic
+            // may overflow: check against the limit after every dimension.
+            let Some(dimension_size) = max_index.checked_add(1) else {
+                return Err(OutOfMemoryError::ArrayTooLarge.into());
+            };
+            total_elements = match total_elements.checked_mul(dimension_size) {
+                Some(total) if total <= MAX_DIM_TOTAL_ELEMENTS => total,
+                _ => return Err(OutOfMemoryError::ArrayTooLarge.into()),
+            };
             dimensions.push(dimension_size);
-        }
-        if total_elements > MAX_DIM_TOTAL_ELEMENTS {
-            return Err(OutOfMemoryError::ArrayTooLarge.into());
         }
         let values = vec![T::default(); total_elements];
         Ok(DimArray { values, dimensions })
